@@ -394,3 +394,21 @@ from txvc.props import replay_for  # noqa: E402
 
 for _u in ("lang.assignment-multiplicities.battery", "lang.update_attr_multiplicities"):
     replay_for(_u)(_replay_c02)
+
+
+from txvc.props import ASSUME, T_ARP, TRUSTED  # noqa: E402
+
+TRUSTED["C02"] = [T_ARP]
+ASSUME["C02"] = [
+    "den-C02: one object is handed at most c1(root) assignment nodes outside repetitions for an attribute, in input order "
+    "(Arpeggio's parse tree follows the expression: a sequence matches its parts once each, an ordered choice one "
+    "alternative); this links the grammar-side proof to the model-side units and is what makes the 'Multiple "
+    "assignments' raise and the overwrite of a falsy earlier value unreachable (bounded battery only)",
+    "arpeggio class hierarchy: OrderedChoice is a Sequence; OneOrMore / ZeroOrMore / Optional are Repetitions; none of "
+    "them has subclasses among the expressions textX builds",
+    "A-ARB: the contract is proved for one arbitrary attribute name (uninterpreted constant A()); the statement for "
+    "every name is the universal generalisation of that proof",
+    "KEYED (precondition, established by _new_cls_attr, not proved here): every entry of cls._tx_attrs is a MetaAttr "
+    "registered under its own name with one of the four multiplicities",
+    "termination of the recursion over the expression tree is not proved (partial correctness)",
+]
